@@ -133,15 +133,23 @@ theorem C07_receiver_bound_partial (c : Ctx) (rollupId : Bytes) (hs : List Meta)
 
 /-! ### Non-vacuity and the counterexample for the unchanged `reconstruct.rs` -/
 
-/-- A toy hash family with 32-byte outputs (not collision free; used only to evaluate examples). -/
-def pad32 (x : Bytes) : Bytes := (x ++ List.replicate 32 0).take 32
+/-- position-weighted byte sum, the ingredient of the toy digest -/
+def wsum : Nat → Bytes → Nat
+  | _, [] => 0
+  | i, b :: bs => (i + 1) * (b.toNat + 1) + wsum (i + 1) bs
+
+def spread (s : Nat) : Bytes := (List.range 32).map fun k => UInt8.ofNat (s * (2 * k + 1) + k)
+
+/-- A toy digest with 32-byte output that depends on every input byte and its position (far from
+    collision free; used only to evaluate examples). -/
+def toyDigest (tag : Nat) (x : Bytes) : Bytes := spread (tag + wsum 0 x)
 
 def toyHs : Hashes where
-  H := { leaf := fun x => pad32 (0 :: x), node := fun a b => pad32 (1 :: (a ++ b)), empty := pad32 [] }
-  sha := fun x => pad32 (2 :: x)
+  H := { leaf := fun x => toyDigest 1 x, node := fun a b => toyDigest 2 (a ++ b), empty := toyDigest 3 [] }
+  sha := fun x => toyDigest 4 x
 
 theorem toyHs_sized : toyHs.Sized := by
-  constructor <;> intros <;> simp [toyHs, pad32] <;> omega
+  constructor <;> intros <;> simp [toyHs, toyDigest, spread]
 
 def idA : Bytes := List.replicate 32 1
 def idB : Bytes := List.replicate 32 2
